@@ -23,17 +23,20 @@ pub struct Enumerated {
 
 fn i_e_into_structure(id: u64, class: TagClass, inner: i64) -> structure::StructureTag {
     let mut count = 0u8;
-    let mut rem: i64 = if inner >= 0 { inner } else { -inner };
+    // The octets needed for a negative number are those needed for its one's complement.
+    let magnitude: i64 = if inner >= 0 { inner } else { !inner };
+    let mut rem = magnitude;
     while {
         count += 1;
         rem >>= 8;
         rem > 0
     } {}
 
-    // Ensure that the most significant bit is always 0, because BER uses signed numbers.
+    // Ensure that the most significant bit always carries the sign, because BER uses
+    // signed numbers: one more octet is needed if it is taken by the magnitude.
     // We shift away all but the most significant bit and check that.
     // See #21
-    if inner > 0 && inner >> ((8 * count) - 1) == 1 {
+    if magnitude >> ((8 * count) - 1) == 1 {
         count += 1;
     }
 
